@@ -922,8 +922,12 @@ def run(tier, seed):
              "layout tables: white-space runs incl. tab / newline / CR LF / FF at every insignificant position, optional trailing commas, white space around | and : "
              "and inside _( ); odd layouts in the other quote style where equivalent; the last two with the slash flipped) and rendered through {%% component %%} "
              "(observed at get_context_data) and a probe BaseNode (observed at render); %d documented-invalid combinations x 3 contexts x 2 tags; mutations of "
-             "printed argument lists and %d undocumented forms for M-model == implementation only. Non-trivial = the body contains a container, filter, spread or "
-             "key. Distinct = distinct (tag, body)." % (n_lay, len(INVALID), len(EXPLORE)),
+             "printed argument lists and %d undocumented forms for M-model == implementation only; context values include non-dict Mappings (MappingProxyType, "
+             "UserDict, ChainMap) and non-list iterables (tuple, range, dict keys view, frozenset, str) at every spread position; history: the same argument "
+             "text in templates that differ only in {%% load %%} of two harness-registered filter libraries with overlapping filter names, rendered in "
+             "every order within the process (oracle: stock {{ expr }} of the same template / TemplateSyntaxError where not loaded), and one layout of every "
+             "structure re-rendered inside another template. Non-trivial = the body contains a container, filter, spread or key. Distinct = distinct "
+             "(tag, body)." % (n_lay, len(INVALID), len(EXPLORE)),
         explanation="theorems of Props/C02.v re-checked by coqc (parse_print_denote for the full grammar, all layouts); per generated case: (direct) independent "
                     "denotation (Python list/dict semantics + Django leaf evaluation) == what the receivers get, and all layouts of one structure agree; (S) inside "
                     "Coq: arglist_ok, Spec.print of the structure under the layout table == the text the implementation's parse_tag received, Spec.denote == the "
